@@ -338,23 +338,24 @@ def gen_program(rng, transforms=False):
 
 # ------------------------------------------------------------------ exhaustive block
 def exhaustive_programs():
-    """Every program of one seed rule p2(X) :- p1(X) plus two free rules with head p2(X) or
-    p3(X) and a body of one or two literals from p1(V), p2(V), p3(V), p0(V,W), !p1(V), !p2(V),
-    !p3(V), V != W, V = W over the variables X, Y; kept: safe and stratifiable. Base facts
-    fixed (a 3-cycle-free chain with a self loop, one initial fact of the derived p3)."""
-    import itertools
+    """Every program of the seed rule p2(X) :- p1(X) plus one free rule with head p2(X) and one
+    with head p3(X), each with a body of one or two literals: first a positive atom from
+    p1(X), p2(X), p3(X), p2(Y), p3(Y), p0(X,Y), p0(Y,X), then optionally one of these or a
+    test from !p1(X), !p2(X), !p3(X), !p2(Y), !p3(Y), X != Y, X = Y; kept: safe (head variable
+    and every tested variable bound by a positive atom) and stratifiable. Base facts fixed
+    (a chain with a self loop, one initial fact of the derived p3)."""
     X, Y = var(1), var(2)
-    vs = [X, Y]
-    pos = [["atom", atom(p, v)] for p in (1, 2, 3) for v in vs]
-    pos += [["atom", atom(0, v, w)] for v in vs for w in vs]
-    tests = [["neg", atom(p, v)] for p in (1, 2, 3) for v in vs] + [["ineq", X, Y], ["eq", X, Y]]
+    pos = [["atom", atom(1, X)], ["atom", atom(2, X)], ["atom", atom(3, X)], ["atom", atom(2, Y)], ["atom", atom(3, Y)],
+           ["atom", atom(0, X, Y)], ["atom", atom(0, Y, X)]]
+    tests = [["neg", atom(1, X)], ["neg", atom(2, X)], ["neg", atom(3, X)], ["neg", atom(2, Y)], ["neg", atom(3, Y)],
+             ["ineq", X, Y], ["eq", X, Y]]
 
     def vars_of(l):
         if l[0] in ("atom", "neg"):
             return set(t[1] for t in l[1]["args"])
         return {l[1][1], l[2][1]}
     bodies = [[l] for l in pos] + [[a, b] for a in pos for b in pos + tests]
-    rules = []
+    rules = {2: [], 3: []}
     for h in (2, 3):
         for b in bodies:
             bound, ok = set(), True
@@ -364,17 +365,18 @@ def exhaustive_programs():
                 else:
                     ok = ok and vars_of(l) <= bound
             if ok and 1 in bound:
-                rules.append(clause(atom(h, X), b))
+                rules[h].append(clause(atom(h, X), b))
     seed = clause(atom(2, X), [["atom", atom(1, X)]])
     init = [fact(0, num(1), num(2)), fact(0, num(2), num(3)), fact(0, num(3), num(3)),
             fact(1, num(1)), fact(3, num(2))]
-    for r1, r2 in itertools.combinations_with_replacement(rules, 2):
-        cl = [seed, r1, r2]
-        layers = dc.stratify(cl)
-        if layers is None:
-            continue
-        yield {"clauses": cl, "layers": layers, "init": init, "pre": [], "features": ["exhaustive"],
-               "transforms": False}
+    for r1 in rules[2]:
+        for r2 in rules[3]:
+            cl = [seed, r1, r2]
+            layers = dc.stratify(cl)
+            if layers is None:
+                continue
+            yield {"clauses": cl, "layers": layers, "init": init, "pre": [], "features": ["exhaustive"],
+                   "transforms": False}
 
 
 # ------------------------------------------------------------------ encoding
@@ -542,6 +544,12 @@ def probes(ck):
          lambda o: any(g["fact"]["p"] == "p3" and all(has_partial(p) for p in g["recorded"]["proofs"])
                        for g in o["goals"])),
     ]
+    cases.append(
+        ("N83", "recorded mode: a body atom with a wildcard has no resolvable premise fact (p0(1). p1(1). p2(X) :- p1(X), "
+                "p0(_).): the premise is dropped and the proof flagged partial",
+         {"src": "p0(1).\np1(1).\np2(V1) :- p1(V1), p0(_).\n", "pre": "", "max_proofs": 1, "max_depth": 0,
+          "modes": ["recorded"]},
+         lambda o: any(g["fact"]["p"] == "p2" and all(has_partial(p) for p in g["recorded"]["proofs"]) for g in o["goals"])))
     outs = ck.run_go("c15", [c[2] for c in cases])
     for (kid, what, _, test), o in zip(cases, outs):
         if "out" in o and o["out"]["stage"] == "ok" and test(o["out"]):
@@ -573,7 +581,13 @@ def load_corpus():
 def evaluate(ck, progs, optss, origin, ref_every=4):
     """Go + Coq on the given programs. Returns (records, stats)."""
     go_cases = [go_case(p, o) for p, o in zip(progs, optss)]
-    outs = ck.run_go("c15", go_cases, timeout=3000)
+    # the harness is one sequential process: run chunks side by side
+    from concurrent.futures import ThreadPoolExecutor
+    nchunk = 1 if len(go_cases) < 64 else 8
+    size = (len(go_cases) + nchunk - 1) // nchunk
+    chunks = [go_cases[k:k + size] for k in range(0, len(go_cases), size)]
+    with ThreadPoolExecutor(max_workers=nchunk) as ex:
+        outs = [o for part in ex.map(lambda c: ck.run_go("c15", c, timeout=6000), chunks) for o in part]
     ck.log("go side done: %d programs" % len(progs))
     terms, where = [], []
     st = {"stage": {}, "goals": 0, "proofs": {"posthoc": 0, "recorded": 0}, "noproof": {"posthoc": 0, "recorded": 0},
@@ -663,7 +677,10 @@ def run(ck):
     if not ck.quick:
         for p in exhaustive_programs():
             progs.append(p)
-            optss.append({"max_proofs": 1 + nexh % 2, "max_depth": 0, "modes": ["posthoc", "recorded"]})
+            rec3 = any(3 in comp and len(comp) > 1 for comp in p["layers"]) or \
+                any(c["head"]["p"] == 3 and 3 in dc.body_preds(c)[0] for c in p["clauses"])
+            optss.append({"max_proofs": 1 + nexh % 2, "max_depth": 0,
+                          "modes": ["posthoc"] if rec3 else ["posthoc", "recorded"]})
             origin.append("exhaustive")
             nexh += 1
     outs, go_cases, where, verdicts, st = evaluate(ck, progs, optss, origin, ref_every=ck.n(4, 8))
@@ -713,10 +730,11 @@ def run(ck):
                    "explanations judged by check_proof in Coq; non-trivial = recursion, negation, binding equality, initial "
                    "fact of a derived predicate or let-transform present; distinct by program text" % (ncorpus, nrandom, nexh),
            "exhaustive": nexh > 0,
-           "exhaustive_scope": ("all stratifiable safe programs of 2 free rules (+1 seed rule) with bodies of <=2 literals "
-                                "(atoms, negated atoms, X = Y, X != Y) over 2 extensional and 2 derived predicates, 2 variables, "
-                                "fixed base facts incl. an initial fact of a derived predicate; every stored fact explained in "
-                                "both modes" if nexh else ""),
+           "exhaustive_scope": ("all stratifiable safe programs made of the seed rule p2(X) :- p1(X), one rule for p2(X) and one for "
+                                "p3(X) with bodies of <=2 literals (7 positive atoms, 5 negated atoms, X = Y, X != Y) over 2 "
+                                "extensional and 2 derived predicates, 2 variables, fixed base facts incl. an initial fact of the "
+                                "derived, possibly recursive p3; every stored fact explained post-hoc (recorded mode too when p3 "
+                                "is not recursive: N80)" if nexh else ""),
            "features": feats, "options": optd, "analysis_stage": st["stage"], "rule_text_mismatch": st["rule_mismatch"],
            "store_differs_with_recorder": st["store_diff"], "verdicts": {str(k): n for k, n in sorted(vc.items())},
            "samples": [go_cases[min(len(go_cases) - 1, ncorpus)]["src"], go_cases[min(len(go_cases) - 1, ncorpus + 1)]["src"]]}
